@@ -119,6 +119,11 @@ func (v *FnVerifier) alloc(st *State) string {
 
 // assumeClosed: pointers/slices/maps stored in heap `name` refer to allocated objects (< alloc).
 func (v *FnVerifier) assumeClosed(key, name, alloc string) {
+	if key == "GH!transmitted" || key == "GH!sdirty" {
+		// only objects that exist can have been handed to TransmitMessage / can have met a malformation
+		v.smt.assert(fmt.Sprintf("(forall ((q0 Int)) (! (=> (select %s q0) (< q0 %s)) :pattern ((select %s q0))))", name, alloc, name))
+		return
+	}
 	if mt, ok := v.mapTypes[key]; ok && strings.HasPrefix(key, "MV!") {
 		cell := sel(sel(name, "m"), "k")
 		fact := v.closedFact(cell, mt.Elem(), alloc, 0)
@@ -451,6 +456,15 @@ func (v *FnVerifier) materialize(st *State, p Val, t types.Type, why string) str
 // havocKeys replaces the listed heap keys by fresh versions (closed w.r.t. the new alloc).
 func (v *FnVerifier) havocKeys(st *State, ms *ModSet) {
 	all := ms.All
+	if _, movesPos := ms.Keys["GH!sp"]; movesPos && v.trackEnd() {
+		// whatever moves a read position may also have run into the end of that stream
+		if _, ok := ms.Keys[hitEndKey]; !ok {
+			ms2 := newModSet()
+			ms2.union(ms)
+			ms2.add(KeyInfo{Key: hitEndKey, Ghost: "(Array Int Bool)"})
+			ms = ms2
+		}
+	}
 	var keys []string
 	for k, ki := range ms.Keys {
 		v.ensureKey(ki)
